@@ -35,10 +35,35 @@ type exec struct {
 	picAfterForeign bool
 	renders         int
 	shape           []string
+	// sources that live as long as the case
+	te       *document.TemplateEngine // the case's one engine (Eng >= 1)
+	teRuns   int                      // renders it has done
+	td       *document.TemplateData   // the case's one TemplateData (TD == 1)
+	tdRuns   int
+	entries  map[string]tdEntry // what the harness set in td
+	tt       tplTrack
+	slotImg  map[int]gen.Img   // what is at the k-th reused path now
+	slotUses map[int][]slotUse // pictures made from the k-th reused path so far
 }
 
-// fileFor writes the payload under its original name when that is a legal file name (else under its base name).
-func (x *exec) fileFor(im gen.Img) (path, used string, err error) {
+// fileFor writes the payload under its original name when that is a legal file name (else under its base name), at a path
+// of its own; with slot > 0 it replaces the file at the case's slot-th reused path instead.
+func (x *exec) fileFor(im gen.Img, slot int) (path, used string, err error) {
+	if slot > 0 {
+		d := filepath.Join(x.dir, fmt.Sprintf("slot%d", slot))
+		if err := os.MkdirAll(d, 0o755); err != nil {
+			return "", "", err
+		}
+		p := filepath.Join(d, slotName(slot))
+		if err := os.WriteFile(p, payload(im), 0o644); err != nil {
+			return "", "", err
+		}
+		if x.slotImg == nil {
+			x.slotImg = map[int]gen.Img{}
+		}
+		x.slotImg[slot] = im
+		return p, slotName(slot), nil
+	}
 	name := im.Name
 	if strings.ContainsAny(name, "/\x00") || name == "" || name == "." || name == ".." {
 		name = filepath.Base(name)
@@ -53,6 +78,30 @@ func (x *exec) fileFor(im gen.Img) (path, used string, err error) {
 	}
 	p := filepath.Join(d, name)
 	return p, name, os.WriteFile(p, payload(im), 0o644)
+}
+
+// used records that picture p was made from the slot-th reused path and labels the input class.
+func (x *exec) used(slot int, p *pic, src string, shared bool) {
+	if slot <= 0 || p == nil {
+		return
+	}
+	p.slot = slot
+	for _, u := range x.slotUses[slot] {
+		if u.hash == p.hash {
+			continue
+		}
+		x.res.Label("path-reused-other-bytes:" + src)
+		if u.w != p.w || u.h != p.h {
+			x.res.Label("path-reused-other-pixel-size:" + src)
+			if shared && u.shared {
+				x.res.Label("one-engine-same-path-other-pixel-size")
+			}
+		}
+	}
+	if x.slotUses == nil {
+		x.slotUses = map[int][]slotUse{}
+	}
+	x.slotUses[slot] = append(x.slotUses[slot], slotUse{hash: p.hash, w: p.w, h: p.h, src: src, shared: shared})
 }
 
 func imageConfig(sz Size, look []int, alt, title string) *document.ImageConfig {
@@ -183,7 +232,7 @@ func (x *exec) step(i int, s Step) bool {
 		if s.Img == nil || s.Size == nil {
 			return true
 		}
-		path, used, err := x.fileFor(*s.Img)
+		path, used, err := x.fileFor(*s.Img, s.Slot)
 		if err != nil {
 			res.Count("scratch-problem", 1)
 			return true
@@ -199,6 +248,7 @@ func (x *exec) step(i int, s Step) bool {
 			p.name = used
 		}
 		added(p)
+		x.used(s.Slot, p, "body", false)
 	case "table":
 		r, c := s.N, s.M
 		if r < 1 {
@@ -229,6 +279,7 @@ func (x *exec) step(i int, s Step) bool {
 		sz := *s.Size
 		var f func() error
 		used := im.Name
+		slot := 0
 		switch s.K {
 		case "cellimg":
 			cfg := &document.CellImageConfig{AltText: s.S}
@@ -247,12 +298,12 @@ func (x *exec) step(i int, s Step) bool {
 				cfg.Height = sz.H
 			}
 			if s.B {
-				path, u, err := x.fileFor(im)
+				path, u, err := x.fileFor(im, s.Slot)
 				if err != nil {
 					res.Count("scratch-problem", 1)
 					return true
 				}
-				used = u
+				used, slot = u, s.Slot
 				cfg.FilePath = path
 			} else {
 				cfg.Data = payload(im)
@@ -272,12 +323,12 @@ func (x *exec) step(i int, s Step) bool {
 			if sz.Mode == "wkeep" {
 				w = sz.W
 			}
-			path, u, err := x.fileFor(im)
+			path, u, err := x.fileFor(im, s.Slot)
 			if err != nil {
 				res.Count("scratch-problem", 1)
 				return true
 			}
-			used = u
+			used, slot = u, s.Slot
 			f = func() error { _, err := x.doc.AddCellImageFromFile(t, r, c, path, w); return err }
 		}
 		if !call(f) {
@@ -288,6 +339,7 @@ func (x *exec) step(i int, s Step) bool {
 			p.name = used
 		}
 		added(p)
+		x.used(slot, p, "cell", false)
 	case "phpara":
 		if len(s.Texts) != len(s.Phs)+1 {
 			return true
@@ -320,19 +372,29 @@ func (x *exec) step(i int, s Step) bool {
 		x.shape = append(x.shape, fmt.Sprintf("cellph:%d", len(s.Phs)))
 	case "render":
 		td := document.NewTemplateData()
-		imgs := map[string]*pic{}
+		entries := map[string]tdEntry{}
+		if s.TD == 1 {
+			if x.td == nil {
+				x.td, x.entries = document.NewTemplateData(), map[string]tdEntry{}
+			}
+			td, entries = x.td, x.entries
+			if x.tdRuns > 0 {
+				res.Label("templatedata-reused")
+			}
+			x.tdRuns++
+		}
 		for _, d := range s.Data {
 			b := payload(d.Img)
 			cfg := imageConfig(d.Size, d.Look, "", "")
-			name := d.Img.Name
+			e := tdEntry{via: d.Via, img: d.Img, size: d.Size, name: d.Img.Name, op: i}
 			switch d.Via {
 			case "file", "details-file":
-				path, u, err := x.fileFor(d.Img)
+				path, u, err := x.fileFor(d.Img, d.Slot)
 				if err != nil {
 					res.Count("scratch-problem", 1)
 					return true
 				}
-				name = u
+				e.name, e.slot = u, d.Slot
 				if d.Via == "file" {
 					td.SetImage(d.Name, path, cfg)
 				} else {
@@ -345,7 +407,7 @@ func (x *exec) step(i int, s Step) bool {
 				decoy := d.Img
 				decoy.Pat ^= 0x5a5a5
 				decoy.Name = "decoy.png"
-				path, _, err := x.fileFor(decoy)
+				path, _, err := x.fileFor(decoy, 0)
 				if err != nil {
 					res.Count("scratch-problem", 1)
 					return true
@@ -354,14 +416,39 @@ func (x *exec) step(i int, s Step) bool {
 			default:
 				td.SetImageFromData(d.Name, b, cfg)
 			}
-			imgs[d.Name] = &pic{hash: hashOf(b), n: len(b), w: d.Img.W, h: d.Img.H, format: d.Img.Fmt, size: d.Size, name: name, op: i}
+			entries[d.Name] = e
 			res.Label("tpl-via:" + d.Via)
 		}
+		// what every entry of the TemplateData leads to when the render reads it: a path is a reference, the files of
+		// the reused paths are what the last writer left there
+		imgs := map[string]*pic{}
+		for name, e := range entries {
+			im := e.img
+			if viaFile(e.via) && e.slot > 0 {
+				im = x.slotImg[e.slot]
+			}
+			b := payload(im)
+			p := &pic{hash: hashOf(b), n: len(b), w: im.W, h: im.H, format: im.Fmt, size: e.size, name: e.name, op: i, stale: e.op != i}
+			if viaFile(e.via) {
+				p.slot = e.slot
+			}
+			imgs[name] = p
+		}
 		var nd *document.Document
+		base, again := x.tt.base(x.m, s.Eng)
+		shared := s.Eng >= 1
 		if !call(func() error {
 			te := document.NewTemplateEngine()
-			if _, err := te.LoadTemplateFromDocument("t", x.doc); err != nil {
-				return err
+			if shared {
+				if x.te == nil {
+					x.te = document.NewTemplateEngine()
+				}
+				te = x.te
+			}
+			if !again {
+				if _, err := te.LoadTemplateFromDocument("t", x.doc); err != nil {
+					return err
+				}
 			}
 			var err error
 			nd, err = te.RenderTemplateToDocument("t", td)
@@ -373,9 +460,28 @@ func (x *exec) step(i int, s Step) bool {
 			res.Fail("C10.K0", "%s: RenderTemplateToDocument returned no document and no error", where)
 			return false
 		}
+		if shared {
+			if x.teRuns > 0 {
+				res.Label("engine-reused")
+			}
+			x.teRuns++
+		}
+		if again {
+			res.Label("template-rendered-again")
+		}
+		x.m = base
 		x.doc = nd
 		info := x.m.render(imgs)
 		x.renders++
+		for _, p := range x.m.pics() {
+			if p.op != i || (p.src != "tpl-body" && p.src != "tpl-cell") {
+				continue
+			}
+			if p.stale {
+				res.Label("stale-templatedata-entry-shown")
+			}
+			x.used(p.slot, p, "tpl", shared)
+		}
 		x.shape = append(x.shape, fmt.Sprintf("render:%d/%d", info.supplied, info.placeholders))
 		if info.supplied > 0 {
 			res.Label("render-with-pictures")
@@ -571,11 +677,14 @@ func isASCII(s string) bool {
 func TestC10(t *testing.T) {
 	kit.Main(t, kit.Spec[Case]{
 		ID: "C10", Level: "exploration",
-		Rule: "history of 3-22 (thorough 3-40) calls: AddImageFromData / AddImageFromFile (png, jpeg, gif payloads 1-64 px made by the standard encoders, traceable by sha256; file-name classes incl. equal names for different payloads, non-ASCII, no extension, misleading extension), AddCellImage / ...FromData / ...FromFile, template paragraphs with {{#image x}} placeholders in the body and in table cells (alone, with text around, several per paragraph, in consecutive paragraphs) rendered through LoadTemplateFromDocument + RenderTemplateToDocument with SetImage / SetImageFromData / SetImageWithDetails, interleaved with headers, footers, list items, saves, save->OpenFromMemory/Open cycles and reopening of a copy of the package whose relationship ids were renumbered by the harness (5 schemes); size configs nil / none / WxH / one dimension with KeepAspectRatio / one dimension without, 0.1-500 mm. Reference model = ordered list of pictures by position {payload hash, pixel size, size config}; every saved package is read with the harness's own zip/OPC/XML readers. non-trivial = >=3 pictures of >=2 formats with >=1 reopen or >=1 cell/template picture; distinct = distinct sequence of (step kind, format, size mode, placeholders per paragraph, render outcome)",
+		Rule: "history of 3-22 (thorough 3-40) calls: AddImageFromData / AddImageFromFile (png, jpeg, gif payloads 1-64 px made by the standard encoders, traceable by sha256; file-name classes incl. equal names for different payloads, non-ASCII, no extension, misleading extension), AddCellImage / ...FromData / ...FromFile, template paragraphs with {{#image x}} placeholders in the body and in table cells (alone, with text around, several per paragraph, in consecutive paragraphs) rendered through LoadTemplateFromDocument + RenderTemplateToDocument with SetImage / SetImageFromData / SetImageWithDetails, optionally (half of the cases) with sources that outlive one use - one TemplateEngine for all renders of the case (newly loaded documents and the loaded template rendered again), one TemplateData whose entries partly stay from render to render, and up to three file paths whose image the harness replaces (other bytes, format, pixel size) before each AddImageFromFile / AddCellImage(FilePath) / AddCellImageFromFile / SetImage that names them -, interleaved with headers, footers, list items, saves, save->OpenFromMemory/Open cycles and reopening of a copy of the package whose relationship ids were renumbered by the harness (5 schemes); size configs nil / none / WxH / one dimension with KeepAspectRatio / one dimension without, 0.1-500 mm. Reference model = ordered list of pictures by position {payload hash, pixel size, size config} (for a path: hash and pixel size of the bytes that are at the path when the creating call reads it); every saved package is read with the harness's own zip/OPC/XML readers. non-trivial = >=3 pictures of >=2 formats with >=1 reopen or >=1 cell/template picture; distinct = distinct sequence of (step kind, format, size mode, placeholders per paragraph, render outcome)",
 		Gen:  genCase, Run: run, Findings: findings, Fixed: fixedCases,
 		MustSee: map[string]float64{"two-payloads-under-one-name": 0.05, "picture-after-reopen-of-renumbered-package": 0.05, "placeholders-in-adjacent-paragraphs": 0.05,
 			"several-placeholders-in-one-paragraph": 0.05, "placeholder-in-cell": 0.05, "src:cell": 0.2, "src:tpl-body": 0.15, "src:tpl-cell": 0.05, "reopen": 0.3,
-			"fmt:png": 0.3, "fmt:jpeg": 0.3, "fmt:gif": 0.3, "size:wkeep": 0.15, "size:hkeep": 0.1, "size:both": 0.15, "size:none": 0.1, "render-on-document-with-pictures": 0.1},
+			"fmt:png": 0.3, "fmt:jpeg": 0.3, "fmt:gif": 0.3, "size:wkeep": 0.15, "size:hkeep": 0.1, "size:both": 0.15, "size:none": 0.1, "render-on-document-with-pictures": 0.1,
+			"engine-reused": 0.05, "template-rendered-again": 0.05, "templatedata-reused": 0.04, "stale-templatedata-entry-shown": 0.02,
+			"path-reused-other-pixel-size:tpl": 0.04, "path-reused-other-pixel-size:body": 0.08, "path-reused-other-pixel-size:cell": 0.03,
+			"one-engine-same-path-other-pixel-size": 0.015},
 		Assumptions: []string{
 			"1 mm = 36000 EMU and 1 px at 96 dpi = 9525 EMU; the documentation leaves rounding open, so a given dimension may be off by 1 EMU and a derived one by 1 EMU plus the pixel ratio",
 			"one dimension without KeepAspectRatio: the statement gives no rule, the extent is not judged (counted as extent-not-judged); wp:extent = a:ext is still demanded",
@@ -583,6 +692,7 @@ func TestC10(t *testing.T) {
 			"renumbered packages keep the styles relationship at rId1 (foreign numbering of that relationship is C02/C04's subject); the rewritten package is checked against the same oracle before it is opened",
 			"an r:embed that is the id of several relationships counts as resolved only if all of them lead to the picture's own bytes",
 			"template texts around placeholders contain no other template syntax; placeholders use names of [A-Za-z0-9_]+",
+			"a file path is a reference: the picture shows the bytes that are at the path when the call that creates the picture reads it - AddImageFromFile / AddCellImage / AddCellImageFromFile: that call; TemplateData.SetImage (no error result, cannot read): the render. The harness replaces a file only between such calls, never during one",
 		},
 	})
 }
